@@ -78,6 +78,10 @@ def guarded(fn, *args, seconds=20, **kw):
 
 
 # ------------------------------------------------------------------------------------ random generators
+_NATIVE_NAMES = ("random", "uniform", "integers", "normal", "standard_normal", "permutation", "permuted", "shuffle", "multinomial",
+                 "exponential", "standard_exponential", "gamma", "standard_gamma", "beta", "binomial", "geometric", "poisson", "bytes")
+
+
 class ChoiceBudget(BaseException):
     """more rng.choice calls than any correct generation of this molecule can need (deterministic liveness bound)"""
 
@@ -98,11 +102,22 @@ class CountingRNG(np.random.Generator):
 
 
 class RecordingRNG(np.random.Generator):
-    """a real seeded Generator whose `choice` calls are logged"""
+    """a real seeded Generator whose `choice` calls are logged; calls of other random primitives are noted with the position in
+    the choice log at which they happened (`native_log`), so that a check can tell "no choice call here" from "drawn another way".
+    """
 
     def __init__(self, seed):
         super().__init__(np.random.PCG64(seed))
         self.log = []
+        self.native_log = []
+
+    def __getattribute__(self, name):
+        if name in _NATIVE_NAMES:
+            try:
+                object.__getattribute__(self, "native_log").append((len(object.__getattribute__(self, "log")), name))
+            except AttributeError:
+                pass
+        return np.random.Generator.__getattribute__(self, name)
 
     def choice(self, a, size=None, replace=True, p=None, axis=0, shuffle=True):
         r = super().choice(a, size=size, replace=replace, p=p, axis=axis, shuffle=shuffle)
